@@ -25,6 +25,7 @@ def dispatch (line : String) : String :=
   | "encspec" :: w => encSpec w
   | "wf" :: w => wfOp w
   | "seq" :: w => seqOp w
+  | "size" :: w => sizeOp w
   | "enciter" :: w => enciterOp w
   | "intconv" :: w => intconvOp w
   | "tenc" :: w => Typed.tencOp w
